@@ -10,10 +10,19 @@ def _linesearch_brent(func, p, xi, tol=1e-3):
     """Line-search algorithm using Brent's method.
 
     Find the minimum of the function ``func(x0+ alpha*direc)``.
+
+    If no minimum can be bracketed starting from ``alpha=0`` (for
+    instance because the function is constant there, as an image
+    similarity measure is once the images no longer overlap), no step
+    is taken and `p` is returned.
     """
     def myfunc(alpha):
         return func(p + alpha * xi)
-    alpha_min, fret, iter, num = brent(myfunc, full_output=1, tol=tol)
+    try:
+        alpha_min, fret, iter, num = brent(myfunc, full_output=1, tol=tol)
+    except RuntimeError:
+        # scipy.optimize.brent could not bracket a minimum
+        return np.squeeze(func(p)), p
     xi = alpha_min*xi
     return np.squeeze(fret), p+xi
 
